@@ -213,7 +213,7 @@ func genStr(rng *rand.Rand) c17case {
 				src.WriteString(e)
 				c.strClass, c.form = "go-escape", "go-style-escape"
 			} else if mode == 1 {
-				e := []string{`\d`, `\q`, `\z`, `\-`, `\ `, `\e`, `\w`, `\1x`, `\xZZ`, `\u12`, `\p`}[rng.Intn(11)]
+				e := []string{`\d`, `\q`, `\z`, `\-`, `\ `, `\e`, `\w`, `\1x`, `\xZZ`, `\u12z`, `\p`}[rng.Intn(11)]
 				src.WriteString(e)
 				c.strClass, c.form = "undefined-escape", "undefined-escape"
 			} else {
@@ -525,7 +525,7 @@ func runC17(w *fw.W) {
 	if w.Take() {
 		runBatch("fixed tables", c17fixed(), "fixed_table")
 	}
-	nb := w.Pick(48, 1600)
+	nb := w.Pick(120, 20000)
 	for k := 0; k < nb; k++ {
 		if !w.Take() {
 			continue
